@@ -1,14 +1,14 @@
 #!/bin/sh
 # verify a seeded change in its scratch worktree: suite passes with it, demo fails with it and passes without it
-id=$1; wt=/tmp/seed/wt_$id; out=/tmp/seed/out_$id
+id=$1; base=${SEEDBASE:-/tmp/seed}; wt=$base/wt_$id; out=$base/out_$id
 export GOFLAGS=-mod=mod GOPROXY=off GOSUMDB=off GOTOOLCHAIN=local
 cd $wt || exit 9
 git checkout -q -- . 2>/dev/null; git clean -fdq 2>/dev/null
 git apply $out/patch.diff || { echo "$id: patch does not apply"; exit 8; }
 go build ./... && go build -tags verif ./... || { echo "$id: build fails"; exit 7; }
-if go test -vet=off -count=1 ./... >/tmp/seed/test_$id.log 2>&1; then echo "$id: suite passes with patch"; else echo "$id: SUITE FAILS with patch"; tail -5 /tmp/seed/test_$id.log; fi
-sh $out/demo/run.sh $wt >/tmp/seed/demo_with_$id.log 2>&1; a=$?
+if go test -vet=off -count=1 ./... >$base/test_$id.log 2>&1; then echo "$id: suite passes with patch"; else echo "$id: SUITE FAILS with patch"; tail -5 $base/test_$id.log; fi
+sh $out/demo/run.sh $wt >$base/demo_with_$id.log 2>&1; a=$?
 git apply -R $out/patch.diff
-sh $out/demo/run.sh $wt >/tmp/seed/demo_without_$id.log 2>&1; b=$?
+sh $out/demo/run.sh $wt >$base/demo_without_$id.log 2>&1; b=$?
 git checkout -q -- . 2>/dev/null; git clean -fdq 2>/dev/null
 echo "$id: demo exit with patch=$a without=$b ($( [ $a -ne 0 ] && [ $b -eq 0 ] && echo CONFIRMED || echo NOT-CONFIRMED ))"
